@@ -416,6 +416,30 @@ type sScoped struct{ sInst }
 type sTransient struct{ sInst }
 type sSingleton struct{ sInst }
 
+// parameter-object consumers, first resolved from several goroutines at once on a collection nobody has resolved from yet
+type sIn1 struct {
+	godi.In
+	S *sSingleton
+}
+type sIn2 struct {
+	godi.In
+	S *sSingleton
+	T *sTransient `optional:"true"`
+}
+type sIn3 struct {
+	godi.In
+	S *sScoped
+}
+type sIn4 struct {
+	godi.In
+	All []*sSingleton `group:"none"`
+	S   *sSingleton
+}
+type sP1 struct{ sInst }
+type sP2 struct{ sInst }
+type sP3 struct{ sInst }
+type sP4 struct{ sInst }
+
 // stress: real parallelism, no gates; meant to run under the race detector as well.
 func stress(d time.Duration, seed int64) StressReport {
 	var rep StressReport
@@ -426,11 +450,20 @@ func stress(d time.Duration, seed int64) StressReport {
 		all = append(all, i)
 		mu.Unlock()
 	}
-	coll := godi.NewCollection()
-	coll.AddSingleton(func() *sSingleton { x := &sSingleton{}; track(&x.sInst); return x })
-	coll.AddScoped(func(s *sSingleton) *sScoped { x := &sScoped{}; track(&x.sInst); return x })
-	coll.AddTransient(func(s *sSingleton) *sTransient { x := &sTransient{}; track(&x.sInst); return x })
-	coll.AddScoped(func(t *sTransient) {})
+	newColl := func() godi.Collection {
+		coll := godi.NewCollection()
+		coll.AddSingleton(func() *sSingleton { x := &sSingleton{}; track(&x.sInst); return x })
+		coll.AddScoped(func(s *sSingleton) *sScoped { x := &sScoped{}; track(&x.sInst); return x })
+		coll.AddTransient(func(s *sSingleton) *sTransient { x := &sTransient{}; track(&x.sInst); return x })
+		coll.AddScoped(func(t *sTransient) {})
+		coll.AddScoped(func(in sIn1) *sP1 { x := &sP1{}; track(&x.sInst); return x })
+		coll.AddTransient(func(in sIn2) *sP2 { x := &sP2{}; track(&x.sInst); return x })
+		coll.AddScoped(func(in sIn3) *sP3 { x := &sP3{}; track(&x.sInst); return x })
+		coll.AddTransient(func(in sIn4) *sP4 { x := &sP4{}; track(&x.sInst); return x })
+		return coll
+	}
+	coll := newColl()
+	tP := []reflect.Type{reflect.TypeOf((*sP1)(nil)), reflect.TypeOf((*sP2)(nil)), reflect.TypeOf((*sP3)(nil)), reflect.TypeOf((*sP4)(nil))}
 	runtime.GC()
 	rep.Goroutines0 = runtime.NumGoroutine()
 	var ms0 runtime.MemStats
@@ -440,6 +473,9 @@ func stress(d time.Duration, seed int64) StressReport {
 	rnd := rand.New(rand.NewSource(seed))
 	for time.Now().Before(end) {
 		rep.Iterations++
+		if rep.Iterations%2 == 0 {
+			coll = newColl() // a cold collection: nothing has been resolved through its analysis yet
+		}
 		p, err := coll.Build()
 		if err != nil {
 			rep.BadResults++
@@ -481,6 +517,12 @@ func stress(d time.Duration, seed int64) StressReport {
 							mu.Unlock()
 						}
 					}()
+					if _, err := sc.Get(tP[(kind+k)%4]); err != nil && !errors.Is(err, godi.ErrScopeDisposed) && !errors.Is(err, godi.ErrProviderDisposed) {
+						mu.Lock()
+						rep.BadResults++
+						rep.BadText = firstLine(err.Error())
+						mu.Unlock()
+					}
 					for j := 0; j < 4; j++ {
 						var v any
 						var err error
@@ -696,7 +738,13 @@ func cmdConc(args []string) {
 	oprobe := fs.Bool("orderprobe", false, "")
 	vprobe := fs.Bool("overlapprobe", false, "")
 	kprobe := fs.Bool("createprobe", false, "")
+	bprobe := fs.Bool("buildprobe", false, "")
 	fs.Parse(args)
+	if *bprobe {
+		b, _ := json.Marshal(buildProbe())
+		fmt.Println(string(b))
+		return
+	}
 	if *kprobe {
 		b, _ := json.Marshal(createProbe())
 		fmt.Println(string(b))
